@@ -291,9 +291,9 @@ impl Check for SmartAccount {
     }
     fn runs(&self, tier: Tier) -> u64 {
         if tier == Tier::Quick {
-            400
+            2500
         } else {
-            30_000
+            30000
         }
     }
     fn components(&self) -> serde_json::Value {
